@@ -211,7 +211,7 @@ def run_job(job: dict) -> dict:
         conditions.pre.append(
             ConditionExpr(
                 PRECONDITION,
-                lambda vars, code=code, g=g: eval(code, g, dict(vars)),
+                lambda vars, code=code, g=g: eval(code, g, _LazyVars(vars)),
                 "<shard>",
                 0,
                 extra_pre,
@@ -297,6 +297,19 @@ def run_job(job: dict) -> dict:
     res["samples"] = samples
     res["known_hits"] = known
     return res
+
+
+class _LazyVars(dict):  # type: ignore[type-arg]
+    """Locals mapping for a shard precondition: looks a parameter up only
+    when the expression names it (copying all bindings costs more than the
+    step under analysis)."""
+
+    def __init__(self, bindings: typing.Any) -> None:
+        super().__init__()
+        self._b = bindings
+
+    def __missing__(self, key: str) -> typing.Any:
+        return self._b[key]
 
 
 def main(argv: list[str]) -> int:
